@@ -70,6 +70,10 @@ pub enum Op {
     /// serialize_request -> from_der -> signed_by (needs x509-parser)
     IssueFromCsr { issuer: usize, key: usize, recipe: CertRecipe },
     Crl { issuer: usize, recipe: CrlRecipe },
+    /// the issuer is first *imported* from its own DER (`from_ca_cert_der`), turned back into a
+    /// `Certificate` by self-signing with the issuer key, and the leaf is issued from that
+    /// (needs x509-parser)
+    IssueViaImport { issuer: usize, subject: usize, recipe: CertRecipe },
 }
 
 impl Op {
@@ -80,6 +84,7 @@ impl Op {
             Op::Csr { .. } => "csr",
             Op::IssueFromCsr { .. } => "issue-from-csr",
             Op::Crl { .. } => "crl",
+            Op::IssueViaImport { .. } => "issue-via-import",
         }
     }
 }
@@ -381,6 +386,65 @@ impl World {
                     Err(p) => res.ret = Ret::Panic(p),
                 }
             }
+            #[cfg(not(feature = "x509-parser"))]
+            Op::IssueViaImport { .. } => {
+                res.ret = Ret::Skipped("no x509-parser");
+                return res;
+            }
+            #[cfg(feature = "x509-parser")]
+            Op::IssueViaImport { issuer, subject, recipe } => {
+                let (Some(iss), Some(sk)) = (self.issuers.get(*issuer), self.keys.get(*subject)) else {
+                    res.ret = Ret::Skipped("no such issuer or subject");
+                    return res;
+                };
+                let ik = &self.keys[iss.key];
+                // names with an OID arc 2.40 and up do not survive x509-parser's decoder (DESIGN §8):
+                // import robustness, not this family's subject
+                let unimportable = iss.recipe.not_importable();
+                if unimportable {
+                    res.ret = Ret::Skipped("issuer name not importable");
+                    return res;
+                }
+                let imported = match guarded(|| rcgen::CertificateParams::from_ca_cert_der(iss.cert.der())?.self_signed(&ik.kp)) {
+                    Ok(Ok(c)) => c,
+                    Ok(Err(e)) => {
+                        res.ret = Ret::Err(format!("import:{}", err_name(&e)));
+                        res.calls = self.bus.calls_since(call0);
+                        return res;
+                    }
+                    Err(p) => {
+                        res.ret = Ret::Panic(p);
+                        res.calls = self.bus.calls_since(call0);
+                        return res;
+                    }
+                };
+                let call1 = self.bus.n_calls();
+                res.artefacts.push(Artefact {
+                    kind: "cert",
+                    der: imported.der().to_vec(),
+                    signer: iss.key,
+                    requester: None,
+                    calls: self.bus.calls_since(call0),
+                    subject: Some(iss.key),
+                });
+                let params = recipe.build();
+                match guarded(|| params.signed_by(&sk.kp, &imported, &ik.kp)) {
+                    Ok(Ok(cert)) => {
+                        let der = cert.der().to_vec();
+                        res.artefacts.push(Artefact {
+                            kind: "cert",
+                            der: der.clone(),
+                            signer: iss.key,
+                            requester: None,
+                            calls: self.bus.calls_since(call1),
+                            subject: Some(*subject),
+                        });
+                        res.ret = Ret::Ok(der);
+                    }
+                    Ok(Err(e)) => res.ret = Ret::Err(err_name(&e)),
+                    Err(p) => res.ret = Ret::Panic(p),
+                }
+            }
             Op::Crl { issuer, recipe } => {
                 let Some(iss) = self.issuers.get(*issuer) else {
                     res.ret = Ret::Skipped("no such issuer");
@@ -505,10 +569,14 @@ pub fn gen_ops_for(r: &mut Rng, nkeys: usize, n_ops: usize, crypto: bool, x509: 
                         if o[0] == 2 && o[1] >= 40 {
                             o[1] %= 40;
                         }
+                        if o[0] == 0 && o[1] == 0 {
+                            o[1] = 1;
+                        }
                     }
                 }
                 Op::IssueFromCsr { issuer: r.usize(issuers), key: r.usize(nkeys), recipe: c }
             }
+            8 if x509 => Op::IssueViaImport { issuer: r.usize(issuers), subject: r.usize(nkeys), recipe: gen_cert(r, &sw) },
             _ => Op::Crl { issuer: r.usize(issuers), recipe: gen_crl(r, &sw) },
         };
         ops.push(op);
